@@ -42,7 +42,7 @@ def _depth(label):
 # ------------------------------------------------------------------------------ R18.6
 def r186_handlers(P, u, rep):
     rep.rule('R18.6', '__LINE__ / __FILE__ are computed from the token of the OUTERMOST macro invocation (origin chain walked to its end) '
-             'and from that token\'s file (#line delta / display name); #line N makes the next line N; every token of an expansion gets the invoking token as origin', floor=20)
+             'and from that token\'s file (#line delta / display name); #line N makes the next line N; every token of an expansion gets the invoking token as origin', floor=18)
     for fn, maker, what in (('line_macro', 'new_num_token', 'line'), ('file_macro', 'new_str_token', 'file')):
         W = '%s:%d' % (PP, u.fn(fn).line)
         base = '%s:%s' % (PP, fn)
@@ -466,7 +466,7 @@ def r185(P, rep):
 
 def r187(P, rep):
     rep.rule('R18.7', 'gen_expr and gen_stmt emit `.loc <file_no of the node\'s token> <its line_no>` before any other output; '
-             'codegen emits one `.file <file_no> "<name>"` per input file before any code; tokenize_file registers every file under its own number', floor=5)
+             'codegen emits one `.file <file_no> "<name>"` per input file before any code; tokenize_file registers every file under its own number', floor=6)
     u = P.unit(CG)
 
     class _Stop(Exception):
